@@ -3,7 +3,7 @@
    clockwise, every ring closed and complete, up to start vertex and order. *)
 From Coq Require Import ZArith List Bool Lia Arith Permutation.
 From Verif Require Import Geo.Model Geo.JoinProofs Geo.Conserve Geo.Closes Geo.Cut Geo.Edges
-  Geo.Orient Geo.Annotate Geo.Rings Geo.Holes Geo.Recover Geo.Contain Geo.Assign.
+  Geo.Orient Geo.Annotate Geo.Rings Geo.Holes Geo.Recover Geo.Contain Geo.Assign Geo.Truthful.
 Import ListNotations.
 Open Scope Z_scope.
 
@@ -55,38 +55,49 @@ Proof. intros L H. unfold closedb. unfold line_closed in H. rewrite H. apply pt_
 Definition ccw_line (o l : line) : Prop := is_ring_line o l /\ sign (shoelace l) = 1.
 Definition cw_line (h l : line) : Prop := is_ring_line h l /\ sign (shoelace l) = -1.
 
-(* the rings produced from the chains of one join, un-annotated members *)
+(* the rings produced from the chains of one join; every annotation that is present is truthful *)
 Lemma rings_of_join : forall (rs : list line) segs chains o,
   (o = 1 \/ o = -1) ->
   NoDup (concat rs) -> Forall (fun r => (3 <= length r)%nat) rs ->
   (forall r, In r rs -> shoelace (close_ring r) <> 0) ->
-  is_cut (map close_ring rs) segs -> (forall s, In s segs -> seg_orient s = 0) ->
+  is_cut (map close_ring rs) segs -> (forall s, In s segs -> seg_truthful rs s) ->
   join segs = JoinOk chains ->
   exists rs', Permutation rs' rs /\
     Forall2 (fun r c => is_ring_line r (ring_of o c) /\ sign (shoelace (ring_of o c)) = o /\
                         valid_ring (ring_of o c) = true) rs' chains.
 Proof.
-  intros rs segs chains o Ho Hnd Hlen Harea Hcut Hz Hj.
+  intros rs segs chains o Ho Hnd Hlen Harea Hcut Htr Hj.
   destruct (join_closes_rings rs segs chains Hnd Hlen Hcut Hj) as (rs' & HP & HF).
   exists rs'. split; [exact HP|].
-  pose proof (join_unannotated _ _ Hj Hz) as Hzc.
-  assert (Hin : forall r, In r rs' -> (3 <= length r)%nat /\ shoelace (close_ring r) <> 0).
+  destruct (join_conserves _ _ Hj) as (obss & HFo & HPo).
+  assert (Hobs : forall ob, In ob (concat obss) -> seg_truthful rs (fst ob)).
+  { intros ob Hob. apply Htr. assert (Hin : In (fst ob) (compact segs)).
+    { eapply Permutation_in; [exact HPo|]. apply in_map. exact Hob. }
+    unfold compact in Hin. apply filter_In in Hin. apply Hin. }
+  assert (Hchain : forall c, In c chains -> exists obs, chain_rel obs c /\
+                     forall ob, In ob obs -> seg_truthful rs (fst ob)).
+  { clear -HFo Hobs. induction HFo as [|obs c0 obss chains Hc HF IH]; intros c Hc'; [contradiction|].
+    destruct Hc' as [<-|Hc'].
+    - exists obs. split; [exact Hc|]. intros ob Hob. apply Hobs. simpl. apply in_or_app. left. exact Hob.
+    - apply IH; [|exact Hc']. intros ob Hob. apply Hobs. simpl. apply in_or_app. right. exact Hob. }
+  assert (Hin : forall r, In r rs' -> In r rs /\ (3 <= length r)%nat /\ shoelace (close_ring r) <> 0).
   { intros r Hr. assert (Hr' : In r rs) by (eapply Permutation_in; [exact HP|exact Hr]).
-    rewrite Forall_forall in Hlen. split; [apply Hlen; exact Hr'|apply Harea; exact Hr']. }
-  clear HP Hj Hcut. induction HF as [|r c rs' chains Hrc HF IH]; [constructor|].
+    rewrite Forall_forall in Hlen. split; [exact Hr'|]. split; [apply Hlen; exact Hr'|apply Harea; exact Hr']. }
+  clear HP Hj Hcut HFo HPo Hobs. induction HF as [|r c rs' chains Hrc HF IH]; [constructor|].
   constructor.
-  - destruct (Hin r (or_introl eq_refl)) as [H3 Hnz].
+  - destruct (Hin r (or_introl eq_refl)) as (Hr & H3 & Hnz).
     destruct (is_ring_line_area r _ ltac:(lia) Hrc) as [Hc Ha].
     assert (Hnz' : shoelace (ms_line c) <> 0) by (destruct Ha as [E|E]; rewrite E; lia).
+    destruct (Hchain c (or_introl eq_refl)) as (obs & Hcr & Hobt).
     destruct (ring_of_orientation o c Ho Hc Hnz') as (Hs & Hcl & Hform).
-    { intros s Hs. left. apply (Hzc c s); [left; reflexivity|exact Hs]. }
+    { apply (chain_truthful rs obs c r Hnd Hlen Hr Hcr Hrc Hobt). }
     assert (Hrl : is_ring_line r (ring_of o c)).
     { destruct Hform as [->| ->]; [exact Hrc|apply is_ring_line_rev; exact Hrc]. }
     split; [exact Hrl|]. split; [exact Hs|].
     unfold valid_ring. rewrite (is_ring_line_length _ _ Hrl), (closed_closedb _ Hcl).
     destruct (Nat.leb_spec 4 (S (length r))); [reflexivity|lia].
   - apply IH.
-    + intros c0 s Hc0 Hs. apply (Hzc c0 s); [right; exact Hc0|exact Hs].
+    + intros c0 Hc0. apply Hchain. right. exact Hc0.
     + intros r0 Hr0. apply Hin. right. exact Hr0.
 Qed.
 
@@ -329,13 +340,14 @@ Theorem build_geometry_recovers : forall incl (c : collected) (sc : gscene),
   contained sc ->
   is_cut (map close_ring (s_outers sc)) (col_outer c) ->
   is_cut (map close_ring (s_holes sc)) (col_inner c) ->
-  (forall s, In s (col_outer c ++ col_inner c) -> seg_orient s = 0) ->
+  (forall s, In s (col_outer c) -> seg_truthful (s_outers sc) s) ->
+  (forall s, In s (col_inner c) -> seg_truthful (s_holes sc) s) ->
   exists mp sc',
     geom_polys (build_geometry incl c) = Some mp /\ Permutation sc' sc /\
     Forall2 poly_recovered sc' mp /\
     length (concat (map (@tl line) mp)) = length (s_holes sc).
 Proof.
-  intros incl c sc Hne Hndo Hndh Hlen Harea Hcont Hco Hci Hz.
+  intros incl c sc Hne Hndo Hndh Hlen Harea Hcont Hco Hci Hzo Hzi.
   pose proof Hlen as Hlen0. apply Forall_app in Hlen0. destruct Hlen0 as [Hleno Hlenh].
   set (outer := col_outer c) in *. set (inner := col_inner c) in *.
   destruct (join outer) as [osec|] eqn:Ho; [|exfalso; exact (join_terminates _ Ho)].
@@ -343,11 +355,9 @@ Proof.
   destruct (rings_of_join (s_outers sc) outer osec 1 (or_introl eq_refl) Hndo Hleno) as (ros' & Pro & Fo);
     try assumption.
   { intros r Hr. apply Harea. apply in_or_app. left. exact Hr. }
-  { intros s Hs. apply Hz. apply in_or_app. left. exact Hs. }
   destruct (rings_of_join (s_holes sc) inner isec (-1) (or_intror eq_refl) Hndh Hlenh) as (rhs' & Pri & Fi);
     try assumption.
   { intros r Hr. apply Harea. apply in_or_app. right. exact Hr. }
-  { intros s Hs. apply Hz. apply in_or_app. right. exact Hs. }
   (* order the scene like the outer chains *)
   destruct (@Permutation_map_inv _ _ fst ros' sc Pro) as (sc' & Eros & Psc).
   assert (Hsc' : Permutation sc' sc) by (symmetry; exact Psc).
